@@ -34,7 +34,7 @@ UNIT = Unit(
            rewrites=[("R8",)],
            loops=[Loop(0, binder="it", body_entry="proof { assert(it.seq()[it.index@ as int] == (currency, value)); assert(out_coins@.contains_key(*currency) && out_coins@[*currency] == *value); }", invariants=[
                C("prefix_ok", """forall|q: int| 0 <= q < it.index@ ==> ({ let d = *(#[trigger] it.seq()[q]).0; let v = *it.seq()[q].1;
-                    d == Denom::NewCustom || (tx_kind == TxKind::DoscMint && d == Denom::Erg) || (in_coins@.contains_key(d) && v.0 == in_coins@[d]) })""", "C01"),
+                    d == Denom::NewCustom || (tx_kind == TxKind::DoscMint && d == Denom::Erg) || (in_coins@.contains_key(d) && v.0 == in_coins@[d]) })""", "C01", "C02", "C09", "C18"),
                C("kind", "tx_kind != TxKind::Faucet", "C01"),
                C("entries", "forall|q: int| 0 <= q < it.seq().len() ==> out_coins@.contains_key(*(#[trigger] it.seq()[q]).0) && out_coins@[*it.seq()[q].0] == *it.seq()[q].1", "C01"),
            ])]),
